@@ -146,6 +146,27 @@ theorem buggy_offsets_counterexample : buggyOffsets [2, 3, 2] = [0, 2, 3] ∧ cu
 theorem buggy_offsets_ok_upto_two (a b : Nat) : buggyOffsets [a] = cumOffsets [a] ∧ buggyOffsets [a, b] = cumOffsets [a, b] := by
   simp [buggyOffsets, cumOffsets, List.range_succ]
 
+/-- **every history**: after any sequence of updates whose generator outputs carry the key set of the build,
+    the parameters of the block are those of a fresh build with the LAST output (and untouched if there was none) -/
+theorem history_eq_build (ang : A → P) (dflt : A) (order : List W) (pre post : List P) (hord : order.Nodup)
+    (gens : List (List (W × A)))
+    (hg : ∀ gen ∈ gens, (gen.map (·.1)).Nodup ∧ (∀ w ∈ gen.map (·.1), w ∈ order) ∧ (∀ w ∈ order, w ∈ gen.map (·.1)))
+    (coef0 : W → A) :
+    gens.foldl (fun ps gen => updateBlock ang order pre.length ps gen) (pre ++ buildBlock ang order coef0 ++ post)
+      = pre ++ buildBlock ang order (match gens.getLast? with | some g => coefOf dflt g | none => coef0) ++ post := by
+  induction gens generalizing coef0 with
+  | nil => rfl
+  | cons g gs ih =>
+    obtain ⟨h1, h2, h3⟩ := hg g List.mem_cons_self
+    simp only [List.foldl_cons]
+    rw [updateBlock_eq_build ang dflt order pre post coef0 g hord h1 h2 h3]
+    rw [ih (fun gen h => hg gen (List.mem_cons_of_mem _ h)) (coefOf dflt g)]
+    cases gs with
+    | nil => rfl
+    | cons g' gs' =>
+      have hne : (g' :: gs').getLast? = some ((g' :: gs').getLast (List.cons_ne_nil _ _)) := List.getLast?_eq_some_getLast _
+      simp [List.getLast?_cons_cons, hne]
+
 /-! ## non-vacuity -/
 example : updateBlock (fun (c : Int) => 2 * c) ["XY", "YX", "ZZ"] 1 [7, 2, 4, 6, 9] [("ZZ", 5), ("XY", -1), ("YX", 0)] = [7, -2, 0, 10, 9] := by decide
 example : buildBlock (fun (c : Int) => 2 * c) ["XY", "YX", "ZZ"] (coefOf 0 [("ZZ", 5), ("XY", -1), ("YX", 0)]) = [-2, 0, 10] := by decide
